@@ -51,7 +51,7 @@ CLAIMS["C11"] = dict(
          "build) error codes consumed before a result is produced (no call site resolves to a function that ends with an unread, possibly set "
          "local error code; a valueless return on the error path has emptied every result-typed output parameter) and every DoError paired with an "
          "error-code update; every result container an Execute overload receives is emptied on every path (the NoClip and error returns included). Genuine defects found are "
-         "listed in known_findings.json (D8-D10) or repaired by fix: commits (D7, D13). The rectangle ScalePaths tests against the coordinate range is always GetBounds of the whole input.",
+         "listed in known_findings.json (D8-D10) or repaired by fix: commits (D7, D13). The rectangle ScalePaths tests against the coordinate range is always GetBounds of the whole input. MakePath / MakePathD from a vector report exactly the odd counts (R8.odd-count).",
     note="Does not decide that Execute returns true for all geometry (AddLocalMaxPoly mismatch reachability). Parameters are recognised by name "
          "(precision, decimal_prec, decimalPlaces) and int type.",
     technique="static analysis: structured-CFG path rules + AST interpretation of validation conditions (Engler-style error discipline)",
@@ -163,7 +163,7 @@ CLAIMS["C13"] = dict(
          "the cross-product predicates and the segment intersection are the textbook polynomials (engine E14), hence equivariant under "
          "translation, transposition and scaling as real-number formulas; the boolean convenience functions never hand a path parameter back as the result; every precision parameter "
          "reaches the scale / the ClipperD it is meant for (translation and integer scaling of decimal data); AddPaths_ carries no local from one "
-         "path of a call to the next (path order). GetClosestPointOnSegment is its defining polynomial identity (POLY.measure). Paths added after an Execute are sorted in whatever the order they were added in (SORTED.invalidate).",
+         "path of a call to the next (path order). GetClosestPointOnSegment is its defining polynomial identity (POLY.measure). Paths added after an Execute are sorted in whatever the order they were added in (SORTED.invalidate). The high-precision intersection variant is read in the quick tier too (POLY.intersect, AXIS.homogeneous).",
     note="Permutation/rotation invariance of the sweep (IsValidAelOrder tie-breaking) and the algebraic identities are NOT decided.",
     technique="static analysis: table symmetries on the abstractly interpreted decision function + comparator axioms by exhaustive interpretation",
     design="§3 E3, §4 C13", engine="E3")
@@ -215,7 +215,7 @@ CLAIMS["C04"] = dict(
          "inclusion on every ordering; the builders' index loops over outrec_list_ re-read its size (rings split off while building are emitted in both modes); whatever GetPrevHotEdge returns, the ring's tentative owner is "
          "assigned (SetOwner, or nullptr) on every path on which tree output is possible; PointInOpPolygon reports a vertex on an edge as IsOn "
          "wherever a cross product decides a toggle, and the shortcuts in front of it let every point within the edge's closed x-range through; SetOwner keeps the ownership forest a forest "
-         "and never cuts the re-attached ring loose from what contained it (executed on all forests over four records). In tree mode every ring split off by DoSplitOp / ProcessHorzJoins is tied to its other half through a splits list (SPLIT.recorded).",
+         "and never cuts the re-attached ring loose from what contained it (executed on all forests over four records). In tree mode every ring split off by DoSplitOp / ProcessHorzJoins is tied to its other half through a splits list (SPLIT.recorded). The PolyTreeD overloads work at the precision they are given (PRECISION.forwarded).",
     note="That the owners are right (containment, depth alternation, area equality) is NOT decided.",
     technique="static analysis: effect confinement of option-controlled regions + pipeline identity",
     design="§3 E10, §4 C04", engine="E10")
@@ -244,7 +244,7 @@ CLAIMS["C20"] = dict(
          "distance/epsilon comparison of SimplifyPath and RDP draws the line at 'removable iff distance <= epsilon'; GetBounds' min/max update table and sentinels (a maximum starts at lowest(), not at the smallest positive value); every argument bound to an epsilon / squared-epsilon parameter has that degree; RDP examines each sub-span exactly when it has an interior vertex; Ellipse and TranslatePath "
          "satisfy their defining formulas; the trailing-duplicate removal of a closed path (StripDuplicates, StripNearEqual) is a loop whose condition re-tests the new last point; "
          "PerpendicDistFromLineSqrd, DistanceSqr and IsCollinear are their defining polynomials (engine E14). "
-         "The one flag-clearing site (RDP) is a genuine defect recorded as a known finding (D11). No product of coordinate differences is formed in int64 (INT64.product: Distance, Length, Area).",
+         "The one flag-clearing site (RDP) is a genuine defect recorded as a known finding (D11). No product of coordinate differences is formed in int64 (INT64.product: Distance, Length, Area). Ellipse draws with radiusX and a positive radiusY, or returns the empty path (ELLIPSE.radii).",
     note="Epsilon guarantees, area preservation, idempotence and the exact corner set are NOT decided.",
     technique="static analysis: AST rules on result construction and flag assignments",
     design="§4 C20", engine="E11")
